@@ -24,7 +24,7 @@ LEVEL = 'fault_enumeration'
 WORKERS = {'quick': 8, 'thorough': 14}
 BUDGET_S = {'quick': 40, 'thorough': 300}
 REQUIRED_COUNTERS = ['patterns', 'patterns_exhaustive', 'function_calls_logged', 'output_rows_compared', 'nothing_accepted_patterns', 'second_run_refused',
-                     'long_failure_runs', 'check_before_run']
+                     'long_failure_runs', 'check_before_run', 'output_file_reused']
 RULE = ('a case = a block of accept / ResynchroError / other-Exception / return-None patterns over the N input traces: ALL 4^N patterns for N <= 4 (quick) / '
         '5 (thorough) (flag exhaustive), plus random patterns to N = 60 with runs of >= 8 and >= 16 consecutive failures; output given as str | Path; '
         'returned data shorter than, equal to or longer than the input trace; 2-3 metadata fields of different dtypes; non-trivial = the function '
@@ -46,6 +46,15 @@ def cases(tier, seed):
         chunk = 64
         for i in range(0, len(pats), chunk):
             out.append(dict(gen='exh', patterns=pats[i:i + chunk], outlen=[7, 3, 12][(N + i // chunk) % 3], as_path=bool((N + i // chunk) % 2), must=True))
+    # runs of 8 / 9 / 16 / 17 consecutive failures (the warning thresholds) starting at trace 0, 1, 2 and ending at / before the last trace
+    runs = []
+    for start in (0, 1, 2):
+        for ln in (8, 9, 16, 17):
+            for sym in 'rvn':
+                runs.append('a' * start + sym * ln + 'a')
+                runs.append('a' * start + sym * ln)
+    for i in range(0, len(runs), 12):
+        out.append(dict(gen='exh', patterns=runs[i:i + 12], outlen=[7, 3, 12][(i // 12) % 3], as_path=bool((i // 12) % 2), must=True))
     rs = np.random.default_rng(core.subseed('C20', seed))
     n_rand = 250 if tier == 'quick' else 4000
     for j in range(n_rand):
@@ -53,7 +62,7 @@ def cases(tier, seed):
     return out
 
 
-def _one(t, tmpdir, k, pattern, outlen, as_path, exhaustive, meta_kind=0, dtype='float32', pre_check=0):
+def _one(t, tmpdir, k, pattern, outlen, as_path, exhaustive, meta_kind=0, dtype='float32', pre_check=0, raw=False, reuse_output=None):
     import scared
     import estraces
     N, L = len(pattern), 7
@@ -68,7 +77,12 @@ def _one(t, tmpdir, k, pattern, outlen, as_path, exhaustive, meta_kind=0, dtype=
     ths = estraces.read_ths_from_ram(samples=samples, **meta)
     calls = []
 
+    if raw:
+        outlen = L          # the function hands back the trace's own samples object (array-like, not an ndarray)
+
     def expected_data(i):
+        if raw:
+            return samples[i]
         if outlen <= L:
             return (samples[i, :outlen] * 2 + i).astype(dtype)
         return np.concatenate([samples[i], np.full(outlen - L, float(i), dtype=dtype)])
@@ -88,13 +102,31 @@ def _one(t, tmpdir, k, pattern, outlen, as_path, exhaustive, meta_kind=0, dtype=
             raise ValueError('injected failure')
         if a == 'n':
             return None
+        if raw:
+            return trace_object.samples
         if outlen <= L:
             return trace_object.samples[:outlen] * 2 + i
         return np.concatenate([trace_object.samples[:], np.full(outlen - L, float(i), dtype=dtype)])
 
     fn = os.path.join(tmpdir, f'out_{k}.ets')
     out = pathlib.Path(fn) if as_path else fn
-    s = scared.Synchronizer(ths, out, f)
+    if reuse_output is not None:
+        # the output path already holds an earlier synchronized set (3 traces): with overwrite it must be replaced, without it the
+        # Synchronizer may refuse - but whatever it returns must be exactly the traces accepted by THIS run
+        old = estraces.read_ths_from_ram(samples=np.full((3, L), -7.0, dtype=dtype), idx=np.full((3, 1), 999, dtype='int64'), plaintext=np.zeros((3, 4), dtype='uint8'))
+        s0 = scared.Synchronizer(old, fn, lambda trace_object: trace_object.samples[:])
+        o0 = s0.run()
+        if hasattr(o0, 'close'):
+            o0.close()
+        t.count('output_file_reused')
+        try:
+            s = scared.Synchronizer(ths, out, f, overwrite=bool(reuse_output))
+        except Exception as e:
+            t.check(not reuse_output, 'overwrite_refused', dict(error=repr(e)[:200]))
+            t.count('existing_output_refused')
+            return
+    else:
+        s = scared.Synchronizer(ths, out, f)
     model = [i for i, a in enumerate(pattern) if a == 'a']
     info = dict(pattern=pattern if N <= 40 else pattern[:40] + '...', N=N, outlen=outlen, output='Path' if as_path else 'str', accepted=len(model))
     t.count('patterns')
@@ -118,13 +150,25 @@ def _one(t, tmpdir, k, pattern, outlen, as_path, exhaustive, meta_kind=0, dtype=
             o = s.run()
         except Exception as e:
             err = repr(e)[:200]
+    if reuse_output is False:
+        # an output that already exists and may not be overwritten: refusing (at construction or at the first write) is legitimate and what
+        # the reader of the old file shows when nothing was accepted is not the property's business; only a run that RETURNS with accepted
+        # traces is judged (its output must be exactly those traces, not the old ones plus the new ones)
+        if err is not None or not model:
+            t.count('existing_output_refused')
+            if o is not None and hasattr(o, 'close'):
+                try:
+                    o.close()
+                except Exception:
+                    pass
+            return
     t.count('function_calls_logged', len(calls))
     t.check(calls == list(range(N)), 'function_call_order', lambda: dict(info, calls=calls[:50]))
     t.check(s.processed_counter == N and s.synchronized_counter == len(model), 'counters_wrong',
             lambda: dict(info, processed_counter=s.processed_counter, synchronized_counter=s.synchronized_counter))
     if not model:
         t.count('nothing_accepted_patterns')
-        if o is not None:
+        if o is not None and reuse_output is None:           # (with a pre-existing output file the reader shows that older file: not judged)
             try:
                 t.check(len(o) == 0, 'output_rows_without_accepted_trace', lambda: dict(info, rows=len(o)))
             except Exception:
@@ -173,7 +217,7 @@ def run_case(case):
     try:
         if case['gen'] == 'exh':
             for k, p in enumerate(case['patterns']):
-                _one(t, tmpdir, k, p, case['outlen'], case['as_path'], True, meta_kind=k % 3, pre_check=(1 if k % 4 == 3 else 0))
+                _one(t, tmpdir, k, p, case['outlen'], case['as_path'], True, meta_kind=k % 3, pre_check=(1 if k % 4 == 3 else 0), raw=(k % 5 == 2), reuse_output=(None if k % 7 else bool(k % 2)))
             sig = f"exh|{len(case['patterns'][0])}|{case['patterns'][0]}|{case['outlen']}|{case['as_path']}"
         else:
             rng = gen.rng_of(case['sub'])
@@ -195,7 +239,8 @@ def run_case(case):
                 elif edge == 2:
                     p[0], p[-1] = 'a', 'a'
                 _one(t, tmpdir, k, ''.join(p), int(rng.choice([3, 7, 12, 1])), bool(rng.integers(2)), False, meta_kind=int(rng.integers(3)),
-                     dtype=['float32', 'float64', 'int16'][int(rng.integers(3))], pre_check=int(rng.choice([0, 0, 1, 2])))
+                     dtype=['float32', 'float64', 'int16'][int(rng.integers(3))], pre_check=int(rng.choice([0, 0, 1, 2])), raw=bool(rng.random() < 0.2),
+                     reuse_output=[None, None, None, True, False][int(rng.integers(5))])
             sig = f"rand|{case['sub']}"
     finally:
         shutil.rmtree(tmpdir, ignore_errors=True)
